@@ -10,6 +10,9 @@ Theorem c04_write_remaining_length_too_long : forall n, 268435455 < n ->
   write_remaining_length n = Err PayloadTooLong.
 Proof. exact write_remaining_length_too_long. Qed.
 
+Theorem c04_write_remaining_length_no_out_of_fuel : forall n, write_remaining_length n <> Err OutOfFuel.
+Proof. exact write_remaining_length_no_out_of_fuel. Qed.
+
 Theorem c04_len_len_boundaries :
   len_len 0 = 1 /\ len_len 127 = 1 /\ len_len 128 = 2 /\ len_len 16383 = 2 /\ len_len 16384 = 3 /\
   len_len 2097151 = 3 /\ len_len 2097152 = 4 /\ len_len 268435455 = 4.
